@@ -67,7 +67,20 @@ func c14(r *Run) {
 		cfg.SendLimiter = rate.NewLimiter(rate.Limit(2+ch.Intn(10, "limiter.rate")), 1+ch.Intn(3, "limiter.burst"))
 		r.FaultHit("tight-limiter")
 	}
+	var sref *dht.Server
+	resolverLag := time.Duration(0)
+	if ch.Chance(1, 4, "resolver.slow") {
+		resolverLag = time.Duration(ch.Range(10, 2000, "resolver.ms")) * time.Millisecond
+	}
+	resolverReads := ch.Chance(1, 4, "resolver.reads")
 	cfg.StartingNodes = func() ([]dht.Addr, error) {
+		// user code: may take a while and may look at the server
+		if resolverLag > 0 {
+			time.Sleep(resolverLag)
+		}
+		if resolverReads && sref != nil {
+			_ = sref.NumNodes()
+		}
 		switch startMode {
 		case 1:
 			return nil, nil
@@ -84,6 +97,7 @@ func c14(r *Run) {
 	if s == nil {
 		return
 	}
+	sref = s
 	form := 0
 	if dual {
 		form = 1
@@ -359,16 +373,18 @@ func c14(r *Run) {
 			}
 		case errors.Is(res.Err, dht.TransactionTimeout):
 			timeouts++
-			if closed || tight {
-				continue // with a tight limiter sends are delayed by the budget: no exact instants
+			if closed {
+				continue
 			}
 			if q.writesOK > 0 && q.failOn < 0 && q.shortOn < 0 {
+				// however long a send waited for budget, the time-out is one resend interval
+				// after the last datagram went out
 				want := q.lastOK.Add(delay)
 				if !q.call.End.Equal(want) {
-					r.Violate("timeout-at-wrong-time", "query %d returned the time-out at +%v; one resend interval after its last send is +%v", q.idx, q.call.End.Sub(r.Start), want.Sub(r.Start))
+					r.Violate("timeout-at-wrong-time", "query %d returned the time-out at +%v; one resend interval after its last send is +%v (tight limiter: %v)", q.idx, q.call.End.Sub(r.Start), want.Sub(r.Start), tight)
 					return
 				}
-				if q.writesOK != q.tries {
+				if q.writesOK != q.tries && !tight {
 					r.Violate("timeout-before-all-tries", "query %d timed out after %d of %d sends", q.idx, q.writesOK, q.tries)
 					return
 				}
